@@ -8,7 +8,8 @@ W=$1; L=$2; shift 2
 OUT=/verif/seeded/$L; mkdir -p $OUT
 cd $W || exit 2
 [ -s seeded_change.diff ] || { echo "no seeded_change.diff in $W"; exit 2; }
-git checkout -q -- src && git apply seeded_change.diff || { echo "cannot apply seeded_change.diff"; exit 2; }
+# the scratch worktree follows /repo's current HEAD (fix: commits made after the worktree was created)
+git checkout -q -- src && git checkout -q --detach "$(git -C /repo rev-parse HEAD)" && git apply seeded_change.diff || { echo "cannot apply seeded_change.diff"; exit 2; }
 cp seeded_change.diff $OUT/patch.diff
 cp demo.py $OUT/demo.py 2>/dev/null; cp NOTES.md $OUT/NOTES.md 2>/dev/null
 PYTHONPATH=$W/src:/tmp/agent_env timeout 1200 /venv/bin/python demo.py > /tmp/seed_demo_with_$L.log 2>&1; DW=$?
